@@ -143,6 +143,16 @@ func (fc *FnCtx) callByContract(fr *Frame, st *State, reach string, con *Contrac
 		t := env.evalBool(cl.Expr)
 		fc.sc.assume(tImp(reach, t))
 	}
+	// struct invariants hold for the objects a callee returns
+	if len(fc.eng.structInvs) > 0 {
+		rs := []Val{res}
+		if res.K == KTuple {
+			rs = res.Fs
+		}
+		for _, r := range rs {
+			fc.assumeStructInv(st, r)
+		}
+	}
 	return res
 }
 
@@ -1140,12 +1150,21 @@ func (fc *FnCtx) assumeStructInv(st *State, v Val) {
 		if !types.Identical(v.A.T, si.rootType) {
 			continue
 		}
-		key := si.TypeName + "@" + v.A.Base + "@" + si.Clause.Text
+		key := si.TypeName + "@" + v.A.Base + "@" + si.Clause.Text + fmt.Sprintf("@ep%v", st.ep)
+		// fields whose value may change (verified writers) are re-assumed after every havoc
+		pre := "H$" + typeName(si.rootType) + "$"
+		for _, n := range sortedKeys(st.heap) {
+			if strings.HasPrefix(n, pre) {
+				if hit := si.touches(strings.TrimPrefix(n, pre)); hit != "" && !si.stable[hit] {
+					key += "|" + st.heap[n]
+				}
+			}
+		}
 		if fc.structAssumed[key] {
 			continue
 		}
 		fc.structAssumed[key] = true
-		for _, f := range si.Established {
+		for _, f := range append(append([]string{}, si.Established...), si.Helpers...) {
 			if fc.fn.Name() == f || (fc.fn.Parent() != nil && fc.fn.Parent().Name() == f) {
 				return // still under construction here
 			}
@@ -1156,6 +1175,42 @@ func (fc *FnCtx) assumeStructInv(st *State, v Val) {
 		t := env.evalBool(si.Clause.Expr)
 		fc.quiet--
 		fc.sc.assume(tImp(tNot(tEq(v.A.Base, "0")), t))
+	}
+}
+
+// structInvStore: a store to a struct-invariant field outside the establishing
+// functions must re-establish the invariant of that object at once.
+func (fc *FnCtx) structInvStore(fr *Frame, st *State, reach string, a *Addr, ins *ssa.Store) {
+	if a.Kind != AObj || len(a.Path) == 0 || a.Alt != nil {
+		return
+	}
+	if structOf(a.Root) == nil {
+		return
+	}
+	fname, _ := pathName(a.Root, a.Path)
+	fn := ins.Parent()
+	for fn.Parent() != nil {
+		fn = fn.Parent()
+	}
+	for _, si := range fc.eng.structInvs {
+		if !types.Identical(a.Root, si.rootType) || si.touches(fname) == "" {
+			continue
+		}
+		listed := false
+		for _, f := range append(append([]string{}, si.Established...), si.Helpers...) {
+			if fn.Name() == f {
+				listed = true
+			}
+		}
+		if listed {
+			continue
+		}
+		self := Val{K: KAddr, T: types.NewPointer(si.rootType), A: &Addr{Kind: AObj, Base: a.Base, Root: si.rootType, T: si.rootType}}
+		fc.quiet++
+		env := fc.specEnv(st, nil, map[string]Val{si.Self: self}, si.Pkg, nil, "structinv "+si.TypeName)
+		t := env.evalBool(si.Clause.Expr)
+		fc.quiet--
+		fc.oblige(fr, "structinv", si.TypeName+" preserved by the store to "+fname, reach, t, env.quant, nil)
 	}
 }
 
@@ -1181,12 +1236,30 @@ func (fc *FnCtx) checkStructInvEstablished(fr *Frame, st *State, res Val, reach 
 		if !est {
 			continue
 		}
+		// every object of the type allocated during this call (directly or in an
+		// inlined helper) leaves the function with the invariant established
+		seen := map[string]bool{}
+		for _, r := range rs {
+			if r.K == KAddr && r.A.Kind == AObj {
+				seen[r.A.Base] = true
+			}
+		}
+		var bases []string
+		for b, t := range fc.freshT {
+			if types.Identical(t, si.rootType) && !seen[b] {
+				bases = append(bases, b)
+			}
+		}
+		sort.Strings(bases)
+		for _, b := range bases {
+			rs = append(rs, Val{K: KAddr, T: types.NewPointer(si.rootType), A: &Addr{Kind: AObj, Base: b, Root: si.rootType, T: si.rootType}})
+		}
 		for _, r := range rs {
 			if r.K == KAddr && r.A.Kind == AObj && types.Identical(r.A.T, si.rootType) {
 				env := fc.specEnv(st, nil, map[string]Val{si.Self: r}, si.Pkg, nil, "structinv "+si.TypeName)
 				for _, part := range splitConj(si.Clause.Expr) {
 					t := env.evalBool(part)
-					fc.oblige(fr, "structinv", si.TypeName+" established: "+si.Clause.Text, reach, tImp(tNot(tEq(r.A.Base, "0")), t), env.quant, nil)
+					fc.oblige(fr, "structinv", si.TypeName+" established: "+si.Clause.Text, reach, tImp(tAnd(tNot(tEq(r.A.Base, "0")), tSel(fc.alloc(st), r.A.Base)), t), env.quant, nil)
 				}
 			}
 		}
